@@ -153,12 +153,17 @@ def e2e(case):
 def gen_mc(rng, n):
     from . import net
     cases = []
-    for _ in range(n):
-        spec = net.rand_feeder_spec(rng, max_lines=4, ctrl="manual", allow_tie=False, allow_mg=rng.random() < 0.6)
+    for j in range(n):
+        spec = net.rand_feeder_spec(rng, max_lines=4, ctrl="manual", allow_tie=False, allow_mg=rng.random() < 0.6 and j % 3 != 0)
         for fd in spec["feeders"]:       # EV parks on buses that are not the last bus of the system, sometimes several
             nb = len(fd["parent"])
             fd["ev"] = {str(k): {"hours": list(range(24)), "table": [str(rng.choice([2, 3, 5])) for _ in range(24)], "v2g": rng.random() < 0.6}
                         for k in rng.sample(range(nb), rng.choice([1, 1, min(2, nb)]))}
+        if j % 3 == 0:                   # targeted: one EV park, on the first load point of a feeder with at least two (never the last bus)
+            fd = spec["feeders"][0]
+            if len(fd["parent"]) < 2:
+                fd["parent"].append(0); fd["sw"].append(1); fd["cust"].append(1); fd["load"].append("1/50"); fd["cost"].append(2)
+            fd["ev"] = {"0": {"hours": list(range(24)), "table": [str(rng.choice([2, 3, 5])) for _ in range(24)], "v2g": True}}
         cases.append({"kind": "mc", "spec": spec, "n_inc": 10, "iters": rng.choice([3, 4]), "seed": rng.randint(0, 10 ** 6),
                       "rate": rng.choice([800.0, 2000.0]), "rep": rng.choice([2.0, 4.0])})
     return cases
